@@ -32,6 +32,8 @@ impl Decibels {
 		if self <= Self::SILENCE {
 			return 0.0;
 		}
+		#[cfg(kira_verif)]
+		crate::verif::log_powf32(10.0, self.0 / 20.0, 10.0f32.powf(self.0 / 20.0));
 		10.0f32.powf(self.0 / 20.0)
 	}
 }
